@@ -162,6 +162,7 @@ Record rt := {
   r_clock : Z;                 (* virtual clock, microseconds *)
   r_tick : Z;                  (* advance per clock query *)
   r_timestamp : Z;             (* m_runtime_timestamp *)
+  r_run_ts : Z;                (* m_run_timestamp: start of the current run *)
   r_max_runtime : Z;           (* microseconds, 0 = off *)
   r_max_loop : nat;            (* max_loop_iterations_in_unscheduled *)
   r_slice : nat;               (* 150 *)
@@ -263,7 +264,7 @@ Definition declare_top_var (c:context) (n:string) : context :=
 Definition rt_with (r:rt) (ctxs:list context) (active:option nat) (st:rstate) (ex ha ru er:bool) (msgs:list (Z*Z))
   (out:list event) (nss:list (string * list (string*value))) (clock ts:Z) (nid:nat) : rt :=
   {| r_ctxs := ctxs; r_active := active; r_state := st; r_exit_req := ex; r_halt_req := ha; r_run := ru; r_err := er;
-     r_msgs := msgs; r_out := out; r_nss := nss; r_clock := clock; r_tick := r_tick r; r_timestamp := ts;
+     r_msgs := msgs; r_out := out; r_nss := nss; r_clock := clock; r_tick := r_tick r; r_timestamp := ts; r_run_ts := r_run_ts r;
      r_max_runtime := r_max_runtime r; r_max_loop := r_max_loop r; r_slice := r_slice r; r_next_id := nid;
      r_defects := r_defects r |}.
 Definition set_ctxs r x := rt_with r x (r_active r) (r_state r) (r_exit_req r) (r_halt_req r) (r_run r) (r_err r) (r_msgs r) (r_out r) (r_nss r) (r_clock r) (r_timestamp r) (r_next_id r).
@@ -279,6 +280,12 @@ Definition set_nss r x := rt_with r (r_ctxs r) (r_active r) (r_state r) (r_exit_
 Definition set_clock r x := rt_with r (r_ctxs r) (r_active r) (r_state r) (r_exit_req r) (r_halt_req r) (r_run r) (r_err r) (r_msgs r) (r_out r) (r_nss r) x (r_timestamp r) (r_next_id r).
 Definition set_timestamp r x := rt_with r (r_ctxs r) (r_active r) (r_state r) (r_exit_req r) (r_halt_req r) (r_run r) (r_err r) (r_msgs r) (r_out r) (r_nss r) (r_clock r) x (r_next_id r).
 Definition set_next_id r x := rt_with r (r_ctxs r) (r_active r) (r_state r) (r_exit_req r) (r_halt_req r) (r_run r) (r_err r) (r_msgs r) (r_out r) (r_nss r) (r_clock r) (r_timestamp r) x.
+
+Definition set_run_ts (r:rt) (x:Z) : rt :=
+  {| r_ctxs := r_ctxs r; r_active := r_active r; r_state := r_state r; r_exit_req := r_exit_req r; r_halt_req := r_halt_req r;
+     r_run := r_run r; r_err := r_err r; r_msgs := r_msgs r; r_out := r_out r; r_nss := r_nss r; r_clock := r_clock r;
+     r_tick := r_tick r; r_timestamp := r_timestamp r; r_run_ts := x; r_max_runtime := r_max_runtime r; r_max_loop := r_max_loop r;
+     r_slice := r_slice r; r_next_id := r_next_id r; r_defects := r_defects r |}.
 
 Definition defect (r:rt) (d:string) : bool := existsb (String.eqb d) (r_defects r).
 
@@ -343,20 +350,17 @@ Fixpoint find_scope (name:string) (fs:list frame) (k:nat) : option nat :=
   match fs with
   | [] => None
   | f :: r => if String.eqb (f_scope f) name then Some (S k) else find_scope name r (S k) end.
+Fixpoint pop_clearing (k:nat) (c:context) : context :=
+  match k with O => c | S k' => pop_clearing k' (pop_frame (clear_values c)) end.
 Definition op_breakout (r:rt) (c:context) (v:value) (target:string) : opres :=
   match c_frames c with
   | [] => UB "breakOut without a frame"
   | _ :: _ =>
-    if String.eqb target "" then Ok (r, pop_frame c, v)
+    (* switch on = the code before the repair: frames popped, regions left behind *)
+    let leave := fun k => if defect r "breakout_leaks_regions" then set_frames c (skipn k (c_frames c)) else pop_clearing k c in
+    if String.eqb target "" then Ok (r, leave 1%nat, v)
     else match find_scope target (c_frames c) 0 with
-         | Some k =>
-             let c' := set_frames c (skipn k (c_frames c)) in
-             (* defect switch off = repaired behaviour: the popped frames' regions are cleared *)
-             let c'' := if defect r "breakout_leaks_regions" then c'
-                        else match nth_error (c_frames c) (k - 1) with
-                             | Some f => set_values c' (skipn (length (c_values c') - f_base f) (c_values c'))
-                             | None => c' end in
-             Ok (r, c'', v)
+         | Some k => Ok (r, leave k, v)
          | None => Ok (logmsg r d_ScopeNameNotFound, c, VNil) end
   end.
 
@@ -375,7 +379,7 @@ Definition err_enact (r:rt) (c:context) (k:nat) : res (bool * rt * context) :=
           let (val, c1) := match pop_value c with Some (v, c') => (Some v, c') | None => (None, c) end in
           let c2 := clear_values c1 in
           let exc := match val with Some (VTrace v) => v | _ => VNil end in
-          let f' := set_pos (set_code (set_vars f [("_exception", exc)]) h) 0 in
+          let f' := set_err (set_pos (set_code (set_vars f [("_exception", exc)]) h) 0) None in
           Ok (false, r, set_frames c2 (list_upd (c_frames c2) k f'))
     | Some (EExcept h exchanged) =>
         (* behavior_except::enact ops_sqfvm.cpp:427 *)
@@ -384,7 +388,7 @@ Definition err_enact (r:rt) (c:context) (k:nat) : res (bool * rt * context) :=
           let (val, c1) := match pop_value c with Some (v, c') => (Some v, c') | None => (None, c) end in
           let c2 := clear_values c1 in
           let exc := match val with Some v => v | None => VNil end in
-          let f' := set_err (set_pos (set_code (set_vars f [("_exception", exc)]) h) 0) (Some (EExcept h true)) in
+          let f' := set_err (set_pos (set_code (set_vars f [("_exception", exc)]) h) 0) None in
           Ok (false, r, set_frames c2 (list_upd (c_frames c2) k f'))
     end
   end.
@@ -924,6 +928,34 @@ Definition frame_fuel : nat := 1000 * 100.
 Definition current_instr (c:context) : option instr :=
   match c_frames c with f :: _ => nth_error (f_code f) (f_pos f - 1) | [] => None end.
 
+(* runtime.cpp handle_runtime_error: offer the error to the nearest frame with an error behaviour;
+   a frame that declines (try-catch for a runtime error) is skipped and the search goes outwards *)
+Fixpoint handle_error (fuel:nat) (r:rt) (c:context) (msgs:list (Z*Z)) (skip:nat) : res (bool * rt * context) :=
+  match fuel with O => Hang "handle_runtime_error" | S fuel' =>
+    match find_handler (skipn skip (c_frames c)) skip with
+    | None => Ok (false, r, c)
+    | Some k =>
+        let c1 := push_value c (VTrace (VArr (map (fun d => VNum (snd d)) msgs))) in
+        let c2 := set_frames c1 (skipn k (c_frames c1)) in
+        bindr (err_enact r c2 0) (fun '(failed, r3, c3) =>
+          if failed then
+            let c4 := match pop_value c3 with Some (_, c') => c' | None => c3 end in
+            handle_error fuel' r3 c4 msgs 1
+          else Ok (true, r3, c3))
+    end end.
+
+(* returns (recovered?, machine) with the error flag cleared either way *)
+Definition on_error (r:rt) : res (bool * rt) :=
+  let msgs := r_msgs r in
+  let r1 := set_msgs r [] in
+  match cur r1 with
+  | None => UB "active context vanished"
+  | Some c =>
+      bindr (handle_error (S (S (length (c_frames c)))) r1 c msgs 0) (fun '(recovered, r2, c2) =>
+        let r3 := upd_cur r2 c2 in
+        if recovered then Ok (true, set_errflag r3 false)
+        else Ok (false, set_errflag (logmsg r3 d_Stacktrace) false)) end.
+
 (* one pass through the body of the while(true) loop; exit_after = 0 is tested by the caller *)
 Definition do_iter (r:rt) : res iter :=
   if r_exit_req r then Ok (Return ROk r) else
@@ -938,50 +970,40 @@ Definition do_iter (r:rt) : res iter :=
       | StRunning =>
         let frame_count := length (c_frames c) in
         bindr (frame_next frame_fuel r c) (fun '(fr, r1, c1) =>
+          if r_err r1 then
+            (* an exit behaviour raised an error: handled here, at the scope that raised it *)
+            bindr (on_error (upd_cur r1 c1)) (fun '(recovered, r2) =>
+              if recovered then Ok (Continue r2) else Ok (Return RRuntimeError r2))
+          else
           match fr, Nat.eqb (length (c_frames c1)) frame_count with
           | FDone, true =>
-              (* runtime.cpp:80-95: frame completion *)
+              (* frame completion: the scope hands exactly one value to its caller *)
               let popped := pop_value c1 in
               let c2 := match popped with Some (_, c') => c' | None => c1 end in
               let c3 := pop_frame (clear_values c2) in
               let c4 := match popped with
                         | Some (v, _) => push_value c3 v
-                        | None => if defect r "block_value_dropped" then c3 else push_value c3 VNil end in
+                        | None => if defect r "block_value_dropped" then c3
+                                  else match c_frames c3 with [] => c3 | _ => push_value c3 VNil end end in
               Ok (Continue (upd_cur r1 c4))
           | _, _ =>
               match current_instr c1 with
-              | None => UB "frame.current() dereferenced at the end of the instruction set (runtime.cpp:97)"
+              | None => UB "frame.current() dereferenced at the end of the instruction set"
               | Some i =>
-                (* deadline test runtime.cpp:98 *)
+                (* deadline test: measured from the start of the run *)
                 let '(expired, r2) :=
                   if Z.eqb (r_max_runtime r1) 0 then (false, r1)
-                  else let (t, r') := now r1 in (Z.ltb (r_max_runtime r1 + r_timestamp r1) t, r') in
-                if expired then Ok (Return ROk (set_exit_req (logmsg (upd_cur r2 c1) d_MaximumRuntimeReached) true))
+                  else let (t, r') := now r1 in (Z.ltb (r_max_runtime r1 + r_run_ts r1) t, r') in
+                if expired then
+                  Ok (Return RRuntimeError
+                        (set_msgs (set_errflag (set_exit_req (logmsg (upd_cur r2 c1) d_MaximumRuntimeReached) true) false) []))
                 else
                 bindr (exec_instr i r2 c1) (fun '(r3, c5) =>
                   let r4 := upd_cur r3 c5 in
                   if negb (r_err r4) then Ok (Executed (set_msgs r4 []))
-                  else
-                    (* runtime.cpp:206-254 *)
-                    let msgs := r_msgs r4 in
-                    let r5 := set_msgs r4 [] in
-                    match cur r5 with
-                    | None => UB "active context vanished"
-                    | Some c6 =>
-                      match find_handler (c_frames c6) 0 with
-                      | Some k =>
-                          let c7 := push_value c6 (VTrace (VArr (map (fun d => VNum (snd d)) msgs))) in
-                          let c8 := set_frames c7 (skipn k (c_frames c7)) in
-                          bindr (err_enact r5 c8 0) (fun '(_, r6, c9) =>
-                            Ok (Executed (set_errflag (upd_cur r6 c9) false)))
-                      | None =>
-                          Ok (Return RRuntimeError (set_errflag (logmsg r5 d_Stacktrace) false)) end end) end end)
+                  else bindr (on_error r4) (fun '(recovered, r5) =>
+                         if recovered then Ok (Executed r5) else Ok (Return RRuntimeError r5))) end end)
       | _ => Ok (Return ROk r) end end end.
-
-(* Note on the error path: recover_runtime_error is called while m_runtime_error is still true
-   (runtime.cpp:236 before :237), so behavior_catch_exit::enact sees the flag and fails; the model
-   passes the flag accordingly. *)
-Definition do_iter_faithful_flag := tt.
 
 Fixpoint execute_do (fuel:nat) (r:rt) (exit_after:nat) : res (rresult * rt) :=
   match fuel with O => Hang "execute_do fuel" | S fuel' =>
